@@ -17,9 +17,25 @@ ASSUMPTIONS = ["'objects keep at least the properties check reports' is checked 
 TRUSTED = []
 
 
+def merged_over_unknown(rng):
+    """an object merged over a provider output / ciphertext of an import, read by aggregate built-ins"""
+    r = rng
+    src = r.choice([("open", "p", ("obj", [])), ("obj", [("t", ("cipher", G.envelope_repr(b"ct-one")))])])
+    sink = r.choice(["tojson", "tostring", "join", "interp", "sym"])
+    ref = ("sym", [("name", "cfg")])
+    e = {"tojson": ("tojson", ref), "tostring": ("tostring", ref), "join": ("join", ("str", ","), ("arr", [("tojson", ref)])),
+         "interp": G.norm_interp([("v=", [("name", "cfg")]), ("", None)]), "sym": ref}[sink]
+    envs = {"base": {"imports": [], "values": [("cfg", src)]},
+            "root": {"imports": [("base", True)], "values": [("cfg", ("obj", [("a", ("num", "1"))])), ("js", e)]}}
+    c = G.case_from_graph(envs, "root")
+    c["provs"] = {"p": {"in": "always", "out": "always", "beh": "const", "const": G.xspec({"b": ("num", "2")})}}
+    c["sites"] = []
+    return c
+
+
 def gen(rng, tier):
     n = 4000 if tier == "thorough" else 350
-    cases = []
+    cases = [merged_over_unknown(rng.fork("m%d" % i)) for i in range(40 if tier == "thorough" else 16)]
     for i in range(n):
         clean = rng.chance(3, 4)
         g = G.RichGen(rng.fork("w%d" % i), bad_refs=not clean, nonobject_inputs=False, faulty=not clean)
